@@ -76,6 +76,8 @@ class Lowering:
             return (self.zvar(n.val), self.ONE)
         if op == "inf":
             raise sc.Unsupported("infinity reached the solver")
+        if op == "nan":
+            raise sc.Unsupported("nan reached the solver")
         if op == "add":
             (a, b), (c, d) = self.memo[n.args[0].id], self.memo[n.args[1].id]
             if z3.eq(b, d):
